@@ -520,6 +520,26 @@ func (t *Tr) havocForCall(cc *ssa.CallCommon, ct *Contract, env *Env, st *State)
 			}
 		}
 	}
+	if !computed && ct != nil && ct.Assumed {
+		// an assumed (library) contract's frame does not cover what a closure handed to the library
+		// writes when it is called back: havoc the closure's own mod-set as well
+		var extra []string
+		for _, a := range cc.Args {
+			if mc, ok := a.(*ssa.MakeClosure); ok {
+				extra = append(extra, t.ms.modsVisible(mc.Fn.(*ssa.Function), t.fn)...)
+			}
+		}
+		sort.Strings(extra)
+		for _, m := range extra {
+			if m == compAlloc {
+				continue
+			}
+			t.ensureComp(m)
+			if _, ok := c.compSort[m]; ok {
+				c.havoc(st, m)
+			}
+		}
+	}
 	if computed {
 		mods := t.ms.callMods(t.fn, cc)
 		seen := map[string]bool{}
